@@ -723,6 +723,10 @@ def structural_checks(unit):
                     s0, bo, bc = R.find_fn_anywhere(toks, m, sc["count_in_fn"])
             except ExtractError as e:
                 res.append({"id": sc["id"], "ok": False, "detail": str(e), "why": sc.get("why", ""), "lost": True}); continue
+            # logging is not behaviour: tracing macros are dropped (R2) before anything is counted, so adding or removing a trace!/debug! line
+            # never changes a structural verdict
+            body = R.r2_trace([t.copy() for t in toks[bo:bc + 1]], {})
+            toks, m, bo, bc = body, R.match_table(body), 0, len(body) - 1
             if sc.get("before"):
                 # each of the two token sequences occurs exactly once in the body, the first one earlier, and the first one at the top level of the
                 # function body (not inside a nested block or closure)
